@@ -9,6 +9,12 @@
 // newly submitted async stage to reach its gate) before it releases the next one, so the
 // completion order is owned by the harness. A second test releases all blocked stages at once
 // ("waves"), so that stages really complete concurrently.
+//
+// Where a stage panics is a generated dimension (fault point): inside its operator (Execute), or
+// in one of the three methods every concrete stage supplies itself and the pipeline calls around
+// the operator: Plan() (always inline in the goroutine that completed the parent: the caller or
+// a pool worker of an ancestor, also for async stages), NextStages() (in the goroutine that ran
+// the operator) and Complete() (inside the state machine's completeStage).
 package c19
 
 import (
@@ -50,6 +56,11 @@ func init() {
 // generator only while known_findings.json lists it.
 const sigSyncPanicUnderAsync = "C19/sync-panic-under-async-parent"
 
+// sigCompletePanics is the signature of the third finding (see TestRegression_CompletePanics*):
+// a panic inside Stage.Complete(). The fault point is removed from the generator only while
+// known_findings.json lists it.
+const sigCompletePanics = "C19/stage-complete-panics-under-state-machine-lock"
+
 // waitBound bounds every wait of the harness; it is reached only when something is wrong
 // (a released stage never completes, a submitted stage never runs, the pool does not drain).
 const waitBound = 5 * time.Second
@@ -78,13 +89,24 @@ const (
 	planNil       = 2 // Plan() returns nil (sync + ok only: there is no operator that could hold a gate)
 )
 
+// fault points outside the operator (a panic; these methods cannot return an error).
+const (
+	faultNone     = 0
+	faultPlan     = 1 // Plan() panics: no plan node, the operator never runs (Out is irrelevant)
+	faultNext     = 2 // NextStages() panics after the operator succeeded: no child is started
+	faultComplete = 3 // Complete() panics (after the children were started, or after the stage failed)
+)
+
+var faultNames = [...]string{"", "plan", "next", "complete"}
+
 type nodeSpec struct {
 	ID        int
 	Parent    int // -1 for the root
 	Children  []int
 	Async     bool
-	Out       outKind
-	PanicKind int // 0 string, 1 error, 2 runtime error, 3 other value
+	Out       outKind // outcome of the main operator; outPanic = the operator panics
+	Fault     int     // panic outside the operator (faultPlan / faultNext / faultComplete)
+	PanicKind int     // 0 string, 1 error, 2 runtime error, 3 other value
 	Plan      int
 	Pre, Post int
 	Prio      int // release priority among async stages (lower first); serial mode only
@@ -107,6 +129,9 @@ func (s *caseSpec) canon() string {
 		fmt.Fprintf(&sb, "%d:%s:%s", i, mode, n.Out)
 		if n.Out == outPanic {
 			fmt.Fprintf(&sb, "%d", n.PanicKind)
+		}
+		if n.Fault != faultNone {
+			fmt.Fprintf(&sb, "!%s%d", faultNames[n.Fault], n.PanicKind)
 		}
 		switch n.Plan {
 		case planComposite:
@@ -132,6 +157,12 @@ func (s *caseSpec) canon() string {
 	return sb.String()
 }
 
+// passes: the children of the stage are started (its operator succeeds and neither Plan() nor
+// NextStages() panics; Complete() is called after the children were started).
+func (n *nodeSpec) passes() bool {
+	return n.Out.succeeds() && n.Fault != faultPlan && n.Fault != faultNext
+}
+
 // modelStarted: a stage is started iff every ancestor succeeded (children of a failed stage
 // are not planned). Exact when no started stage panics.
 func (s *caseSpec) modelStarted() []bool {
@@ -141,7 +172,7 @@ func (s *caseSpec) modelStarted() []bool {
 		if n.Parent < 0 {
 			st[i] = true
 		} else {
-			st[i] = st[n.Parent] && s.Nodes[n.Parent].Out.succeeds()
+			st[i] = st[n.Parent] && s.Nodes[n.Parent].passes()
 		}
 	}
 	return st
@@ -164,9 +195,12 @@ type result struct {
 	Planned       []int // Plan() calls per stage
 	Began, Ended  []int // executions of the stage's main operator (nil plan: counted at Plan())
 	CompleteCalls []int
+	Faulted       []int // panics raised by the stage outside its operator (Plan / NextStages / Complete)
 	PlannedAtCb   []int // copies taken inside the first callback
 	EndedAtCb     []int
-	Seq           []string // X<i> stage i runs (after its gate), E<i> its operator ended, C<i> Complete(), CB callback
+	// X<i> stage i runs (after its gate), E<i> its operator ended, C<i> Complete(), CB callback,
+	// PP<i> / NP<i> / CP<i>: Plan() / NextStages() / Complete() of stage i panics
+	Seq []string
 }
 
 type run struct {
@@ -177,6 +211,8 @@ type run struct {
 	timedOut bool
 
 	planned, began, ended, completeCalls []int
+	faulted                              []int
+	panics                               int // panics raised by the harness so far
 	arrived, released                    []bool
 	gates                                []chan struct{}
 	seq                                  []string
@@ -196,6 +232,36 @@ type harnessOp struct {
 func (o *harnessOp) Identifier() string { return fmt.Sprintf("c19-op-%d", o.id) }
 
 type otherPanicValue struct{ id int }
+
+// completeFaultUnguarded is set only in the child process of
+// TestRegression_CompletePanicsInsidePoolPanicHandler.
+var completeFaultUnguarded bool
+
+// raise panics with a value of the generated kind.
+func raise(id, kind int) {
+	switch kind {
+	case 0:
+		panic(fmt.Sprintf("c19-stage-%d panicked", id))
+	case 1:
+		panic(fmt.Errorf("c19-stage-%d panicked", id))
+	case 2:
+		var m map[int]int
+		m[id] = 1 // runtime error: assignment to entry in nil map
+	default:
+		panic(otherPanicValue{id})
+	}
+}
+
+// fault records and raises the panic of stage id at a fault point outside the operator.
+func (r *run) fault(id int, what string) {
+	r.mu.Lock()
+	r.faulted[id]++
+	r.panics++
+	r.seq = append(r.seq, fmt.Sprintf("%s%d", what, id))
+	r.cond.Broadcast()
+	r.mu.Unlock()
+	raise(id, r.spec.Nodes[id].PanicKind)
+}
 
 func (o *harnessOp) Execute() error {
 	if !o.main {
@@ -229,17 +295,10 @@ func (o *harnessOp) Execute() error {
 	case outNotFound, outIgnored:
 		return fmt.Errorf("c19-stage-%d: %w", id, constants.ErrNotFound)
 	case outPanic:
-		switch n.PanicKind {
-		case 0:
-			panic(fmt.Sprintf("c19-stage-%d panicked", id))
-		case 1:
-			panic(fmt.Errorf("c19-stage-%d panicked", id))
-		case 2:
-			var m map[int]int
-			m[id] = 1 // runtime error: assignment to entry in nil map
-		default:
-			panic(otherPanicValue{id})
-		}
+		r.mu.Lock()
+		r.panics++
+		r.mu.Unlock()
+		raise(id, n.PanicKind)
 	}
 	return nil
 }
@@ -248,6 +307,11 @@ func (r *run) planNode(id int) stage.PlanNode {
 	n := &r.spec.Nodes[id]
 	r.mu.Lock()
 	r.planned[id]++
+	r.mu.Unlock()
+	if n.Fault == faultPlan {
+		r.fault(id, "PP")
+	}
+	r.mu.Lock()
 	if n.Plan == planNil {
 		r.began[id]++
 		r.ended[id]++
@@ -319,29 +383,44 @@ func (r *run) waitFor(pred func() bool) bool {
 // quiescent: every released stage has been completed by the state machine (Stage.Complete is
 // its last action before pending is decremented) and every async stage planned so far has
 // reached its gate. Then no pipeline code is running: all other started async stages are
-// parked on their gates and everything that runs inline has run.
+// parked on their gates and everything that runs inline has run. (A panic on a worker - of the
+// operator, of an inline descendant, of the planning of a child - ends in the pool's recover,
+// which completes the released stage through its error handler.)
 func (r *run) quiescent() bool {
 	for i := range r.spec.Nodes {
 		if r.released[i] && r.completeCalls[i] == 0 {
 			return false
 		}
-		if r.spec.Nodes[i].Async && r.planned[i] > 0 && !r.arrived[i] {
-			return false
+		if n := &r.spec.Nodes[i]; n.Async && n.Fault != faultPlan && r.planned[i] > 0 && !r.arrived[i] {
+			return false // (a stage whose Plan() panics is never submitted)
 		}
 	}
 	return true
 }
 
 var (
-	statsOnce sync.Once
+	statsMu   sync.Mutex
 	poolStats *metrics.ConcurrentStatistics
+	statsGen  int
 )
 
+// sharedStats returns the pool statistics shared by the cases of the process. After a case
+// whose pool could not be drained (a worker is stuck for ever; the case has failed) the
+// statistics are replaced, so that the following cases (shrinking) are judged on their own.
 func sharedStats() *metrics.ConcurrentStatistics {
-	statsOnce.Do(func() {
-		poolStats = metrics.NewConcurrentStatistics("c19-verif", linmetric.StorageRegistry)
-	})
+	statsMu.Lock()
+	defer statsMu.Unlock()
+	if poolStats == nil {
+		statsGen++
+		poolStats = metrics.NewConcurrentStatistics(fmt.Sprintf("c19-verif-%d", statsGen), linmetric.StorageRegistry)
+	}
 	return poolStats
+}
+
+func abandonStats() {
+	statsMu.Lock()
+	poolStats = nil
+	statsMu.Unlock()
 }
 
 // runCase executes one case. The returned error reports a harness-level time-out (which is a
@@ -351,6 +430,7 @@ func runCase(spec *caseSpec) (*result, error) {
 	r := &run{
 		spec:    spec,
 		planned: make([]int, n), began: make([]int, n), ended: make([]int, n), completeCalls: make([]int, n),
+		faulted: make([]int, n),
 		arrived: make([]bool, n), released: make([]bool, n), gates: make([]chan struct{}, n),
 	}
 	r.cond = sync.NewCond(&r.mu)
@@ -379,6 +459,9 @@ func runCase(spec *caseSpec) (*result, error) {
 		}
 		stages[i].PlanFn = func() stage.PlanNode { return r.planNode(id) }
 		stages[i].NextFn = func() []stage.Stage {
+			if spec.Nodes[id].Fault == faultNext {
+				r.fault(id, "NP")
+			}
 			var next []stage.Stage
 			for _, c := range spec.Nodes[id].Children {
 				next = append(next, stages[c])
@@ -389,8 +472,16 @@ func runCase(spec *caseSpec) (*result, error) {
 			r.mu.Lock()
 			r.completeCalls[id]++
 			r.seq = append(r.seq, fmt.Sprintf("C%d", id))
+			// Only as the first panic of the case: Complete() of a stage is also called from the
+			// pool's own recover (error handler of a task that panicked), where a second panic
+			// is outside every recover of the process and would kill the test process (that
+			// shape runs in a child process, see TestRegression_CompletePanicsInsidePoolPanicHandler).
+			fire := spec.Nodes[id].Fault == faultComplete && (r.panics == 0 || completeFaultUnguarded)
 			r.cond.Broadcast()
 			r.mu.Unlock()
+			if fire {
+				r.fault(id, "CP")
+			}
 		}
 	}
 
@@ -459,6 +550,7 @@ func runCase(spec *caseSpec) (*result, error) {
 	// is running anywhere and the callback counter is final (no timed grace period needed).
 	releaseAll()
 	if !stopPool() {
+		abandonStats()
 		if herr == nil {
 			herr = errors.New("worker pool did not drain")
 		}
@@ -472,8 +564,8 @@ func runCase(spec *caseSpec) (*result, error) {
 	res := &result{
 		CbCount: int(r.cbCount.Load()), CbErr: r.cbErr,
 		Planned: append([]int(nil), r.planned...), Began: append([]int(nil), r.began...), Ended: append([]int(nil), r.ended...),
-		CompleteCalls: append([]int(nil), r.completeCalls...),
-		PlannedAtCb:   r.plannedAtCb, EndedAtCb: r.endedAtCb,
+		CompleteCalls: append([]int(nil), r.completeCalls...), Faulted: append([]int(nil), r.faulted...),
+		PlannedAtCb: r.plannedAtCb, EndedAtCb: r.endedAtCb,
 		Seq: append([]string(nil), r.seq...),
 	}
 	return res, herr
@@ -490,6 +582,9 @@ func checkOracle(spec *caseSpec, res *result) []violation {
 
 	executedFailure, executedPanic := -1, -1
 	for i := range spec.Nodes {
+		if res.Faulted[i] > 0 && executedPanic < 0 {
+			executedPanic = i
+		}
 		if res.Began[i] == 0 {
 			continue
 		}
@@ -521,8 +616,11 @@ func checkOracle(spec *caseSpec, res *result) []violation {
 			if f < 0 {
 				f = executedPanic
 			}
-			add("error-lost", "stage %d (%s) was executed and did not succeed, but the pipeline completed with err == nil",
-				f, spec.Nodes[f].Out)
+			what := spec.Nodes[f].Out.String()
+			if res.Faulted[f] > 0 {
+				what = faultNames[spec.Nodes[f].Fault] + " panicked"
+			}
+			add("error-lost", "stage %d (%s) was executed and did not succeed, but the pipeline completed with err == nil", f, what)
 		case !wantErr && res.CbErr != nil:
 			add("spurious-error", "no executed stage failed, but the pipeline completed with %v", res.CbErr)
 		}
@@ -635,19 +733,51 @@ func classify(spec *caseSpec, res *result) (bool, []string) {
 	if asyncSiblings {
 		cl = append(cl, "async-siblings>=2")
 	}
-	// completion order of the main operators
+	// completion order: the stage whose operator ended / whose fault fired last
 	lastEnded := -1
-	endedPos := map[int]int{}
-	for k, e := range res.Seq {
-		if strings.HasPrefix(e, "E") {
+	for _, e := range res.Seq {
+		for _, pre := range []string{"E", "PP", "NP", "CP"} {
 			var id int
-			fmt.Sscanf(e, "E%d", &id)
-			endedPos[id] = k
-			lastEnded = id
+			if strings.HasPrefix(e, pre) {
+				if _, err := fmt.Sscanf(e[len(pre):], "%d", &id); err == nil {
+					lastEnded = id
+				}
+				break
+			}
 		}
 	}
 	failNotLast, anyFail, anyPanic := false, false, false
 	for i := range spec.Nodes {
+		if res.Faulted[i] > 0 {
+			// panic outside the operator: where it was raised decides which recover sees it
+			anyPanic = true
+			n := &spec.Nodes[i]
+			where := "sync-on-caller"
+			switch {
+			case n.Fault == faultPlan && n.Parent < 0:
+				where = "root" // async or not: planned in Pipeline.Execute's goroutine
+			case n.Fault == faultPlan && n.Async && spec.Nodes[n.Parent].Async:
+				where = "async-planned-by-async-parent" // the next frame with a recover is the pool's
+			case n.Fault == faultPlan && n.Async && spec.hasAsyncAncestor(i):
+				where = "async-planned-by-sync-parent-on-worker"
+			case n.Fault == faultPlan && n.Async:
+				where = "async-planned-on-caller"
+			case n.Async:
+				where = "async"
+			case spec.hasAsyncAncestor(i):
+				where = "sync-on-worker"
+			}
+			cl = append(cl, "fault@"+faultNames[n.Fault]+":"+where, "fault@"+faultNames[n.Fault])
+			if n.Fault == faultComplete && !n.Out.succeeds() {
+				cl = append(cl, "fault@complete:of-failed-stage")
+			}
+			if n.Fault == faultNext && len(n.Children) > 0 {
+				cl = append(cl, "fault@next:with-children")
+			}
+			if i != lastEnded {
+				failNotLast = true
+			}
+		}
 		if res.Began[i] == 0 || spec.Nodes[i].Out.succeeds() {
 			continue
 		}
@@ -661,6 +791,7 @@ func classify(spec *caseSpec, res *result) (bool, []string) {
 			default:
 				cl = append(cl, "panic:sync-on-caller")
 			}
+			cl = append(cl, "fault@exec")
 		} else {
 			anyFail = true
 			if spec.Nodes[i].Async {
@@ -742,7 +873,6 @@ func genSpec(t *rapid.T, wave bool) *caseSpec {
 	// (rapid's IntRange is biased towards the lower bound, SampledFrom is uniform)
 	depth := rapid.SampledFrom([]int{1, 2, 2, 3, 3, 3, 4, 4}).Draw(t, "depth")
 	allowPanic := rapid.SampledFrom([]bool{false, false, false, true, true}).Draw(t, "allowPanic")
-	excludeSyncPanicOnWorker := ev.Known(sigSyncPanicUnderAsync)
 
 	var build func(parent, level int) int
 	build = func(parent, level int) int {
@@ -801,15 +931,15 @@ func genSpec(t *rapid.T, wave bool) *caseSpec {
 		if out == outPanic {
 			if !allowPanic {
 				out = outFail
-			} else if excludeSyncPanicOnWorker && !async && spec.hasAsyncAncestor(id) {
-				out = outFail
 			} else {
-				spec.Nodes[id].PanicKind = rapid.SampledFrom(percent[:4]).Draw(t, "panicKind")
+				out = genFault(t, spec, id)
 			}
 		}
 		spec.Nodes[id].Out = out
 		pl := rapid.SampledFrom(percent[:10]).Draw(t, "plan")
 		switch {
+		case spec.Nodes[id].Fault == faultPlan:
+			spec.Nodes[id].Plan = planSingle // never built
 		case pl == 0 && !async && out == outOK:
 			spec.Nodes[id].Plan = planNil
 		case pl < 5:
@@ -837,7 +967,6 @@ func genSpec(t *rapid.T, wave bool) *caseSpec {
 // state machine at the same time.
 func genBurst(t *rapid.T, wave bool) *caseSpec {
 	spec := &caseSpec{Wave: wave}
-	excludeSyncPanicOnWorker := ev.Known(sigSyncPanicUnderAsync)
 	add := func(parent int, async bool, out outKind) int {
 		id := len(spec.Nodes)
 		spec.Nodes = append(spec.Nodes, nodeSpec{ID: id, Parent: parent, Async: async, Out: out})
@@ -854,17 +983,46 @@ func genBurst(t *rapid.T, wave bool) *caseSpec {
 		for j := 0; j < g; j++ {
 			async := rapid.Bool().Draw(t, "async")
 			out := rapid.SampledFrom([]outKind{outOK, outFail, outFail, outPanic, outPanic, outPanic}).Draw(t, "outcome")
-			if out == outPanic && !async && excludeSyncPanicOnWorker {
-				out = outFail
-			}
 			id := add(child, async, out)
 			if out == outPanic {
-				spec.Nodes[id].PanicKind = rapid.SampledFrom(percent[:4]).Draw(t, "panicKind")
+				spec.Nodes[id].Out = genFault(t, spec, id)
 			}
 		}
 	}
 	assignReleaseOrder(t, spec)
 	return spec
+}
+
+// genFault: stage id (Parent and Async are set) is to panic; draws where (fault point) and with
+// which value, sets Fault / PanicKind and returns the outcome of the stage's operator.
+func genFault(t *rapid.T, spec *caseSpec, id int) outKind {
+	n := &spec.Nodes[id]
+	at := rapid.SampledFrom([]string{"exec", "exec", "exec", "exec", "plan", "plan", "plan", "next", "next", "complete"}).Draw(t, "faultAt")
+	if at == "complete" && ev.Known(sigCompletePanics) {
+		at = "exec"
+	}
+	if ev.Known(sigSyncPanicUnderAsync) {
+		// a panic that unwinds through executeStage of a registered stage into the pool's recover
+		switch {
+		case !n.Async && spec.hasAsyncAncestor(id):
+			return outFail
+		case n.Async && at == "plan" && spec.hasAsyncAncestor(id):
+			return outFail
+		}
+	}
+	n.PanicKind = rapid.SampledFrom(percent[:4]).Draw(t, "panicKind")
+	switch at {
+	case "plan":
+		n.Fault = faultPlan
+		return outOK
+	case "next":
+		n.Fault = faultNext
+		return rapid.SampledFrom([]outKind{outOK, outOK, outOK, outIgnored}).Draw(t, "opOutcome")
+	case "complete":
+		n.Fault = faultComplete
+		return rapid.SampledFrom([]outKind{outOK, outOK, outFail}).Draw(t, "opOutcome")
+	}
+	return outPanic
 }
 
 func assignReleaseOrder(t *rapid.T, spec *caseSpec) {
